@@ -898,10 +898,22 @@ func (st *ex4State) oracle(v *vio) {
 				// One-sided on purpose: giving up *early* means something that should have been
 				// ignored ended the exchange, which is C13's clause. Taking longer, or more
 				// transmissions, than configured is C11's and C12's business, judged there.
-				if len(phase) < st.tries {
+				// ... and only if the exchange gave up at the very instant a datagram was
+				// delivered to it: then that datagram ended it. Giving up at an instant at which
+				// nothing arrived is a timer's doing (a client whose timeouts are jittered or
+				// capped gives up "early" too: C11's and C12's business).
+				byDatagram := false
+				for _, r := range st.rx {
+					if r.t == o.retT && r.seq < o.retSeq {
+						byDatagram = true
+					}
+				}
+				if !byDatagram {
+					st.s.Probe("exchange-gave-up-at-an-instant-without-a-delivery")
+				} else if len(phase) < st.tries {
 					v.add("X-fail-count", "%s: gave up after %d transmission(s) of its last message, configured tries = %d", name, len(phase), st.tries)
 				}
-				if want := st.T * time.Duration((int64(1)<<uint(st.tries))-1); !st.stall && o.retT-phase[0].t < want {
+				if want := st.T * time.Duration((int64(1)<<uint(st.tries))-1); byDatagram && !st.stall && o.retT-phase[0].t < want {
 					v.add("X-fail-duration", "%s: gave up %v after first transmitting its last message, before the configured schedule ends at %v (T=%v, tries=%d)", name, o.retT-phase[0].t, want, st.T, st.tries)
 				}
 			}
